@@ -298,6 +298,23 @@ class CFG:
         return frontier
 
     def _stmt(self, s, frontier, frames, dup):
+        if isinstance(s, ast.Pass) and getattr(s, '_leave_id', None) is not None:
+            # jump to the end of an expanded helper body (loader._InlineNewHelpers)
+            n = self._new('stmt', s, s, frames, dup)
+            self._link(frontier, n)
+            blk = None
+            for fr in reversed(frames):
+                if fr.kind == 'inlined' and fr.block_id == s._leave_id:
+                    blk = fr
+                    break
+            if blk is None:
+                raise AnalysisError('jump out of an expanded helper without its block at line %d' % s.lineno)
+            blk.leaves.extend(self._unwind([n], frames, dup, blk, 'break'))
+            return []
+        if isinstance(s, ast.If) and getattr(s, '_inlined_block_id', None) is not None:
+            blk = Frame('inlined', s, block_id=s._inlined_block_id, leaves=[])
+            ends = self._block(s.body, frontier, frames + (blk,), dup)
+            return ends + blk.leaves
         if isinstance(s, SIMPLE):
             n = self._new('stmt', s, s, frames, dup)
             self._link(frontier, n)
